@@ -5,6 +5,8 @@ import PS.Proofs.Enum.BeeSoundRun
 import PS.Proofs.Enum.BeeNodupRun
 import PS.Proofs.Enum.BeeCover
 import PS.Proofs.Enum.BeeOffer
+import PS.Proofs.Enum.BeeFullRun
+import PS.Proofs.Enum.BeeTermRun
 import Mathlib.Data.List.Perm.Subperm
 namespace PS.C02Bee
 open PS PS.G PS.Bee
@@ -202,6 +204,101 @@ theorem C02_Bee_add_program_cases (E : Env S) (s : St S) (nt : NT S Unit) (p : P
       rw [if_pos hnf]
       refine Or.inr (Or.inl ⟨rfl, by simpa using hf, ?_⟩)
       simp
+
+/-! ### 4. COMPLETENESS of the repaired generator loop (`Env.fixF11 = true`: the code after fix d763a26, which stops when the
+cheapest queued cost exceeds the cost of the most expensive program)
+
+Invariants proved for every step (PS/Proofs/Enum/BeeCost.lean, BeeComp.lean, BeeBelow.lean, BeeFull*.lean), any filter, no merge
+declaration, under the decidable hypotheses `nonnegW`, `posArgCosts` (rules with arguments cost > 0: the negation is the
+classifier of finding C02-F6), `hasCosts`, `dictOK`, `initFrontOK`, `initCoverOK`:
+(P) every pending combination's parent has a cost that is an entry of the cost list (it was popped in that round), hence every
+expanded combination costs at most the current round's cost; (L) "no late arrival": a combination that uses the index of the
+current round's cost at an argument position costs strictly more, so no program enters a bank at an index used by an expanded
+combination; (D) every program that can be built from an expanded combination and the argument banks at its indices is banked,
+or still in the suspended product, unless the filter rejects it.  With coverage (`C02_Bee_frontier_cover_partial`) and the
+order invariant: in every reachable state every accepted member cheaper than all queued and offered programs is in its bank
+(`bank_complete`).  TERMINATION (that the generator does stop) is NOT proved. -/
+
+/-- **COMPLETE WHEN STOPPED**: when the repaired generator has stopped, it has yielded every member of the grammar all of whose
+    sub-programs the filter accepts (and whose cost is at most `maxCost`, the bound handed to the loop) — finite or recursive
+    grammar (`maxCost = none`: then it only stops on empty queues), any filter, rule order, fuel; no merge declaration -/
+theorem C02_Bee_complete_partial (E : Env S) (h1 : nonnegW E = true) (h2 : posArgCosts E = true) (h3 : hasCosts E = true)
+    (h4 : dictOK E = true) (h5 : initFrontOK E = true) (h6 : initCoverOK E = true) (hfix : E.fixF11 = true)
+    (fuel : Nat) (acts : List Act) (hacts : acts.all Act.isTake = true) (g0 g : Gen S) (out : List Prog)
+    (h0 : Gen.new E = some g0) (h : runActs E fuel acts g0 [] = some (g, out)) (hstop : g.phase.isDone = true) :
+    ∀ p, gen E.G p E.G.start = true → Strict E p → (∀ m, E.maxCost = some m → pcost E p E.G.start ≤ m) → p ∈ out := by
+  have H := hyp_of_checks E h1 h2 h3 h4 h5 h6
+  obtain ⟨ha0, hnob⟩ := all_new E H g0 h0
+  obtain ⟨ha, hr⟩ := runActs_all E H hfix fuel acts g0 g [] out hacts h ha0
+    ⟨⟨by simp, by simp⟩, fun ci p hin => absurd hin (hnob _ ci p), fun l1 q l2 he => by simp at he⟩
+  intro p hg hs hm
+  obtain ⟨ci, hin⟩ := ha.stop hstop p hg hs hm
+  exact hr.bank ci p hin
+
+/-- **EXACTLY THE LANGUAGE, EACH PROGRAM ONCE, WHEN STOPPED** (no filter): if `L` lists the members, all of cost at most
+    `maxCost`, the output of the stopped generator is a permutation of `L` -/
+theorem C02_Bee_full_partial (E : Env S) (h1 : nonnegW E = true) (h2 : posArgCosts E = true) (h3 : hasCosts E = true)
+    (h4 : dictOK E = true) (h5 : initFrontOK E = true) (h6 : initCoverOK E = true) (hfix : E.fixF11 = true)
+    (hnofilter : ∀ p, E.filter p = true) (fuel : Nat) (acts : List Act) (hacts : acts.all Act.isTake = true) (g0 g : Gen S)
+    (out : List Prog) (h0 : Gen.new E = some g0) (h : runActs E fuel acts g0 [] = some (g, out))
+    (hstop : g.phase.isDone = true) (L : List Prog) (hL : ∀ p, p ∈ L ↔ gen E.G p E.G.start = true) (hLnd : L.Nodup)
+    (hmax : ∀ m, E.maxCost = some m → ∀ p ∈ L, pcost E p E.G.start ≤ m) : out.Perm L := by
+  have hnd := C02_Bee_nodup_partial E h4 h5 fuel acts hacts g0 g out h0 h
+  apply (List.perm_ext_iff_of_nodup hnd hLnd).mpr
+  intro p
+  constructor
+  · intro hp; exact (hL p).mpr (C02_Bee_sound E fuel acts g0 g out h0 h p hp)
+  · intro hp
+    exact C02_Bee_complete_partial E h1 h2 h3 h4 h5 h6 hfix fuel acts hacts g0 g out h0 h hstop p ((hL p).mp hp)
+      (fun q _ => hnofilter q) (fun m hm => hmax m hm p hp)
+
+/-- the same for a single `take` that ended with StopIteration -/
+theorem C02_Bee_full_take_partial (E : Env S) (h1 : nonnegW E = true) (h2 : posArgCosts E = true) (h3 : hasCosts E = true)
+    (h4 : dictOK E = true) (h5 : initFrontOK E = true) (h6 : initCoverOK E = true) (hfix : E.fixF11 = true)
+    (hnofilter : ∀ p, E.filter p = true) (fuel k : Nat) (g0 g : Gen S) (out : List Prog) (h0 : Gen.new E = some g0)
+    (h : take E fuel k g0 [] = some (g, out, true)) (L : List Prog) (hL : ∀ p, p ∈ L ↔ gen E.G p E.G.start = true)
+    (hLnd : L.Nodup) (hmax : ∀ m, E.maxCost = some m → ∀ p ∈ L, pcost E p E.G.start ≤ m) : out.Perm L := by
+  have H := hyp_of_checks E h1 h2 h3 h4 h5 h6
+  obtain ⟨ha0, hnob⟩ := all_new E H g0 h0
+  obtain ⟨_, _, hdone⟩ := take_all E H hfix fuel k g0 g [] out true h ha0
+    ⟨⟨by simp, by simp⟩, fun ci p hin => absurd hin (hnob _ ci p), fun l1 q l2 he => by simp at he⟩
+  have hrun : runActs E fuel [.take k] g0 [] = some (g, out) := by simp [runActs, h]
+  exact C02_Bee_full_partial E h1 h2 h3 h4 h5 h6 hfix hnofilter fuel [.take k] (by simp [Act.isTake]) g0 g out h0 hrun
+    (hdone rfl) L hL hLnd hmax
+
+/-- **TERMINATION** of the repaired generator loop when a bound `maxCost = some m` is handed to it (finite grammar), any
+    filter: there are a fuel and a number of `next` calls after which the generator has raised StopIteration.  Proof
+    (PS/Proofs/Enum/BeeStrict.lean, BeeTotal.lean, BeeTerm*.lean): no step raises (`step_total`: indices of queued / delayed
+    combinations exist, every argument non-terminal has a bank: `closedOK`); a lexicographic measure decreases with every
+    step (`step_term`): the costs of the rounds strictly increase (`step_strict`: rules with arguments cost > 0) and stay
+    ≤ m, the non-terminals still to be handled in the round, the elements of the round's cost in the current queue (what a
+    pop pushes back is strictly more expensive), the candidate programs of the suspended product. -/
+theorem C02_Bee_terminates_partial (E : Env S) (h1 : nonnegW E = true) (h2 : posArgCosts E = true) (h3 : hasCosts E = true)
+    (h4 : dictOK E = true) (h5 : initFrontOK E = true) (h6 : initCoverOK E = true) (h7 : closedOK E = true)
+    (hfix : E.fixF11 = true) (m : Int) (hmax : E.maxCost = some m) (g0 : Gen S) (h0 : Gen.new E = some g0) :
+    ∃ fuel k g out, take E fuel k g0 [] = some (g, out, true) := by
+  have H := hyp_of_checks E h1 h2 h3 h4 h5 h6
+  exact take_terminates E H (closed_of_check E h7) hfix m hmax _ g0 rfl (tinv_new E H g0 h0) []
+
+/-- **C02 FOR BEE SEARCH (repaired loop), the full statement on a grammar whose members all cost at most `m`**: the
+    generator stops, and its output is a permutation of the language — every program exactly once, nothing else.
+    All hypotheses are decidable checks on the case (the cost bound and the list `L` of members are data). -/
+theorem C02_Bee_full (E : Env S) (h1 : nonnegW E = true) (h2 : posArgCosts E = true) (h3 : hasCosts E = true)
+    (h4 : dictOK E = true) (h5 : initFrontOK E = true) (h6 : initCoverOK E = true) (h7 : closedOK E = true)
+    (hfix : E.fixF11 = true) (hnofilter : ∀ p, E.filter p = true) (m : Int) (hmax : E.maxCost = some m) (g0 : Gen S)
+    (h0 : Gen.new E = some g0) (L : List Prog) (hL : ∀ p, p ∈ L ↔ gen E.G p E.G.start = true) (hLnd : L.Nodup)
+    (hLm : ∀ p ∈ L, pcost E p E.G.start ≤ m) :
+    ∃ fuel k g out, take E fuel k g0 [] = some (g, out, true) ∧ out.Perm L := by
+  obtain ⟨fuel, k, g, out, ht⟩ := C02_Bee_terminates_partial E h1 h2 h3 h4 h5 h6 h7 hfix m hmax g0 h0
+  exact ⟨fuel, k, g, out, ht, C02_Bee_full_take_partial E h1 h2 h3 h4 h5 h6 hfix hnofilter fuel k g0 g out h0 ht L hL hLnd
+    (fun m' hm' p hp => by rw [hmax] at hm'; cases hm'; exact hLm p hp)⟩
+
+/-- the example grammar with the repaired loop: the most expensive program `(+ var0 var0)` costs 6 -/
+def cF : Env Nat := { cE with fixF11 := true, maxCost := some 6 }
+example : nonnegW cF = true ∧ posArgCosts cF = true ∧ hasCosts cF = true ∧ dictOK cF = true ∧ initFrontOK cF = true ∧
+    initCoverOK cF = true ∧ closedOK cF = true := by decide +kernel
+example : ((Gen.new cF).bind fun g => take cF 1000 10 g []).map (fun r => (r.2.1.length, r.2.2)) = some (5, true) := by
+  decide +kernel
 
 /-! ### finding C02-F6: a rule with arguments of cost 0 loses programs -/
 
